@@ -59,6 +59,10 @@ def build(params):
             hs = H(s, 'hist', j, len(hist))
             if k < 0.35:
                 t, _, _ = _prog(hs, stream(hs, 'p'))
+                if r.random() < 0.4:
+                    # the target text itself, compiled earlier in this process
+                    # with other options (or the same ones)
+                    t = text
                 hist.append({'kind': 'compile', 'text': t, 'opt': r.choice((0, 1, 2)),
                              'dbg': r.random() < 0.5})
             elif k < 0.55:
